@@ -1,5 +1,5 @@
 (** C07 — property theorems only. *)
-From V Require Import Base.Util Gql.Ast Peg.Peg Gen.C07_grammar_gen C07.Builder C07.Model C07.AstEq C07.Spec C07.Proofs C07.Lexical C07.Strings.
+From V Require Import Base.Util Gql.Ast Peg.Peg Gen.C07_grammar_gen C07.Builder C07.Model C07.AstEq C07.Spec C07.Proofs C07.Lexical C07.Strings C07.Numbers.
 From V Require Import Peg.PegProps.
 
 Theorem C07_positions_true : forall inp file (p : pair rule),
@@ -116,3 +116,11 @@ Print Assumptions C07_string_lex_empty.
 Theorem C07_spec_reads_quote : forall v post, (v = [] -> not_quote_next post) -> string_at (quote v ++ post) = Some v.
 Proof. exact spec_reads_quote. Qed.
 Print Assumptions C07_spec_reads_quote.
+
+(** int_lex: integer lexemes of the specification are taken verbatim as one IntValue token *)
+Theorem C07_int_lex : forall l post sk i,
+  is_int_lexeme l = true -> int_follow_ok post = true ->
+  runs gql_grammar sk ANon (Call R_IntValue) (l ++ post) i
+       (Ok (post, (i + slen l)%N, [Pair R_IntValue i (i + slen l)%N []])).
+Proof. exact int_lex. Qed.
+Print Assumptions C07_int_lex.
